@@ -546,6 +546,10 @@ where
                         t.evaluations += 1;
                         *t.known_hits.entry(f.sig.clone()).or_insert(0) += 1;
                         *t.excluded.entry("known_finding".into()).or_insert(0) += 1;
+                        // the case still belongs to its classes (generator distribution)
+                        for c in &obs.classes {
+                            *t.classes.entry(c.clone()).or_insert(0) += 1;
+                        }
                     }
                     Ok(())
                 } else {
